@@ -319,6 +319,143 @@ theorem process_transparent {cfg : Cfg} {env : Env} {r : Response} {a : Assertio
             simp only [hei, if_false]
             exact h
 
+/-! ### the reported subject identifier is the assertion's -/
+
+theorem bearerConfirmed_nameId {cfg : Cfg} {env : Env} {st st' : St} {d : Option ScData}
+    (h : bearerConfirmed cfg env st d = .yes st') : st'.nameId = st.nameId := by
+  unfold bearerConfirmed at h
+  split at h
+  · cases h
+  next dd =>
+    split at h
+    · cases h
+    split at h
+    · cases h
+    split at h
+    · cases h
+    split at h
+    · split at h
+      next i hi =>
+        split at h
+        · cases h; rfl
+        · split at h
+          · cases h; rfl
+          · split at h
+            · cases h; rfl
+            · cases h
+      · cases h; rfl
+    · cases h; rfl
+
+theorem confirmLoop_nameId {cfg : Cfg} {env : Env} :
+    ∀ {confs : List SubjConf} {st st' : St} {n m : Nat},
+      confirmLoop cfg env st confs n = .ok (st', m) → st'.nameId = st.nameId
+  | [], st, st', n, m, h => by
+    unfold confirmLoop at h; cases h; rfl
+  | sc :: rest, st, st', n, m, h => by
+    unfold confirmLoop at h
+    simp only at h
+    split at h
+    · cases h
+    · exact confirmLoop_nameId h
+    next st1 hstep =>
+      have hc1 : st1.nameId = st.nameId := by
+        split at hstep
+        · exact bearerConfirmed_nameId hstep
+        · split at hstep
+          · split at hstep
+            · cases hstep; rfl
+            · cases hstep
+          · cases hstep
+        · cases hstep; rfl
+        · cases hstep
+      split at h
+      · cases h
+      next d hd =>
+        split at h
+        next r hr =>
+          split at h
+          · rw [confirmLoop_nameId h, hc1]
+          · cases h
+        · cases h
+
+theorem conditionOk_nameId {cfg : Cfg} {env : Env} {st st' : St} {a : Assertion}
+    (h : conditionOk cfg env st a = .ok st') : st'.nameId = st.nameId := by
+  unfold conditionOk at h
+  split at h
+  · cases h; rfl
+  next c hc =>
+    split at h
+    · cases h; rfl
+    split at h
+    · cases h
+    split at h
+    · cases h
+    split at h
+    · cases h
+    split at h
+    · cases h
+    split at h
+    · cases h
+    cases h; rfl
+
+theorem getSubject_nameId {cfg : Cfg} {env : Env} {st st' : St} {a : Assertion}
+    (hn : st.nameId = none) (h : getSubject cfg env st a = .ok st') :
+    st'.nameId = a.subject.bind (·.nameId) := by
+  unfold getSubject at h
+  split at h
+  · cases h
+  next s hs =>
+    split at h
+    · cases h
+    split at h
+    · cases h
+    next st1 n hl =>
+      have h1 := confirmLoop_nameId hl
+      split at h
+      · cases h
+      · cases h
+        rw [hs]
+        simp only [Option.bind_some]
+        split
+        · rfl
+        next hnone =>
+          rw [h1, hn]
+          cases hsn : s.nameId with
+          | none => rfl
+          | some x => simp [hsn] at hnone
+
+theorem checkAssertion_nameId {cfg : Cfg} {env : Env} {rs v : Bool} {st st' : St} {a : Assertion}
+    (hn : st.nameId = none) (h : checkAssertion cfg env rs v st a = .ok st') :
+    st'.nameId = a.subject.bind (·.nameId) := by
+  obtain ⟨_, st1, st2, e1, e2, e3, _⟩ := checkAssertion_inv h
+  obtain ⟨_, _, _, _, _, h1, _⟩ := authnStatementOk_inv e1
+  have h2 := conditionOk_nameId e2
+  apply getSubject_nameId _ e3
+  rw [h2, h1]; exact hn
+
+/-- The subject identifier reported for a single-assertion Response is the one in that assertion. -/
+theorem process_nameId {cfg : Cfg} {env : Env} {r : Response} {a : Assertion} {o : Reported}
+    (h : process cfg env (withA r (asPlain a)) = .identity o) :
+    o.nameId = a.subject.bind (·.nameId) := by
+  obtain ⟨_, cf, _, rs, p, _, _, _, hv, _, _, _, a', rest, s, srest, _, _, ho⟩ := process_identity_inv h
+  rw [verify_withA, parseAssertion_plain] at hv
+  subst ho
+  simp only
+  cases hve : verifyEnvelope cfg env r with
+  | error e => rw [hve] at hv; cases hv
+  | ok b =>
+    rw [hve] at hv
+    cases b with
+    | false => cases hv
+    | true =>
+      simp only at hv
+      cases hc : checkAssertion cfg env rs false { cameFrom := cf } a with
+      | error e => rw [hc] at hv; cases hv
+      | ok st1 =>
+        rw [hc] at hv
+        cases hv
+        exact checkAssertion_nameId rfl hc
+
 /-! ### a sealed assertion that does not open -/
 
 /-- A Response whose single assertion is an EncryptedAssertion the recipient cannot open (wrong key,
